@@ -87,6 +87,7 @@ class SimRandomState(np.random.RandomState):
             if self._result is not None:
                 self._result.fault("sched_" + kind)
         self._log.emit("RNG_DRAW", what="permutation", n=int(n), kind=kind, perm=[int(v) for v in out])
+        self.last_perm = np.array(out, copy=True)
         return out
 
     def choice(self, a, size=None, replace=True, p=None):
@@ -335,10 +336,25 @@ class BatchSpy:
         h.world.log.emit("EPOCH", epoch=h.epoch, n=int(len(X)))
         for cb in h.epoch_hooks:
             cb(h, X, affinity_matrix)
+        if isinstance(rs, SimRandomState):
+            rs.last_perm = None
+        offset = 0
         for Xb, Ab in self._inner(X, affinity_matrix, rs):
             h.batch_in_epoch += 1
             h.cur_batch = (Xb, Ab)
-            h.cur_ids = h.identify(X, Xb)
+            # who is in the batch?  First guess: the next slice of the permutation the simulator handed out (it decides
+            # between samples with IDENTICAL rows); accepted only if the rows really are those samples' rows.  Otherwise by
+            # value (any other way of cutting a permutation into batches is legal too).
+            ids = None
+            perm = getattr(rs, "last_perm", None) if isinstance(rs, SimRandomState) else None
+            if perm is not None and offset + len(Xb) <= len(perm):
+                guess = [int(v) for v in perm[offset:offset + len(Xb)]]
+                if np.array_equal(np.asarray(X)[guess], np.asarray(Xb)):
+                    ids = guess
+            elif perm is None and len(Xb) == len(X) and np.array_equal(np.asarray(X), np.asarray(Xb)):
+                ids = list(range(len(X)))
+            offset += len(Xb)
+            h.cur_ids = ids if ids is not None else h.identify(X, Xb)
             h.world.log.emit("BATCH", epoch=h.epoch, b=h.batch_in_epoch, ids=h.cur_ids,
                              aff=None if Ab is None else list(Ab.shape))
             for cb in h.batch_hooks:
